@@ -9,6 +9,7 @@ import Lessm.Model.ExprGen
 import Lessm.Model.ColorFn
 import Lessm.Model.Nest
 import Lean.Data.Json
+import Lessm.Spec.VarsSpec
 
 open Lessm
 
@@ -112,6 +113,62 @@ def nestFlat (payload : String) : String :=
                            Json.arr (r.decls.toArray.map (fun d => Json.arr #[Json.str d.prop, Json.str d.value]))]))
               js.compress
 
+namespace VarsIO
+open Lean Lessm.Vars
+
+def vtok (j : Json) : Except String VTok := do
+  let a ← j.getArr?
+  let k ← (a[0]!).getStr?
+  let s ← (a[1]!).getStr?
+  if k == "r" then pure (.ref s) else pure (.lit s)
+
+def stok (j : Json) : Except String STok := do
+  let a ← j.getArr?
+  let k ← (a[0]!).getStr?
+  let s ← (a[1]!).getStr?
+  if k == "i" then pure (.interp s) else pure (.lit s)
+
+partial def item (j : Json) : Except String Item := do
+  match j.getObjVal? "d" with
+  | .ok d =>
+      let a ← d.getArr?
+      let p ← (a[0]!).getStr?
+      let v ← (← (a[1]!).getArr?).toList.mapM vtok
+      pure (.decl p v)
+  | .error _ =>
+    match j.getObjVal? "v" with
+    | .ok d =>
+        let a ← d.getArr?
+        let p ← (a[0]!).getStr?
+        let v ← (← (a[1]!).getArr?).toList.mapM vtok
+        pure (.vdef p v)
+    | .error _ =>
+        let r ← (← (← j.getObjVal? "r").getArr?).toList.mapM stok
+        let b ← (← (← j.getObjVal? "b").getArr?).toList.mapM item
+        pure (.rule r b)
+
+def outJson (r : Except Err (List OutRule)) : Json :=
+  match r with
+  | .error (.unknownVar n) => Json.mkObj [("err", Json.str ("unknown " ++ n))]
+  | .error .hang => Json.mkObj [("err", Json.str "hang")]
+  | .ok rs => Json.arr (rs.toArray.map (fun r =>
+      Json.arr #[Json.arr (r.path.toArray.map (fun p => Json.str (String.join p))),
+                 Json.arr (r.decls.toArray.map (fun d => Json.arr #[Json.str d.1, Json.str (String.join d.2)]))]))
+
+def run (payload : String) : String :=
+  match Json.parse payload with
+  | .error e => "bad-json " ++ e
+  | .ok j =>
+    match j.getArr? with
+    | .error e => "bad-json " ++ e
+    | .ok arr =>
+      match arr.toList.mapM item with
+      | .error e => "bad-item " ++ e
+      | .ok sheet =>
+          (Json.mkObj [("model", outJson (compile 64 sheet)), ("spec", outJson (specCompile 64 sheet)),
+                       ("varok", Json.bool (VarOK sheet))]).compress
+end VarsIO
+
 def handle (op : String) (payload : String) : String :=
   let args := (payload.splitOn " ").filter (· ≠ "")
   match op, args with
@@ -138,6 +195,7 @@ def handle (op : String) (payload : String) : String :=
     -- payloads whose fields may contain spaces are separated by U+001F
     match op, payload.splitOn "\x1f" with
     | "c02.flat", [j] => nestFlat j
+    | "c03.run", [j] => VarsIO.run j
     | "c17.unknown", name :: rest => Builtins.callUnknown name rest
     | "c06.guard", [g] =>
         match parseGuard g with
